@@ -5,7 +5,8 @@ import ast
 from typing import Any, Dict, List, Optional, Set, Tuple
 
 from sa import AnalysisError
-from sa.pm import ClassInfo, FuncInfo, NotConst, norm, self_attr, walk_local_ordered
+from sa.pm import ClassInfo, FuncInfo, NotConst, norm, self_attr, walk_local_ordered, call_name
+from sa.cf import cfg_of
 from sa.report import Ob, rule
 
 from .common import attr_stores, first_param, ob, single_return_expr
@@ -324,6 +325,45 @@ RAW_CASE_EXEMPT = {
 _SPELLED = {'name', 'alias', 'server'}  # NSEC next_name is rdata compared as spelled (the property lower-cases only owner, PTR target and SRV target)
 
 
+@rule('C20.SCOPE', 'N', expect_min=2)
+def scope(ctx: Any) -> List[Ob]:
+    """`IPv6 scope included`: the scope id is part of the identity of an address record, so it must be a property of the
+    RECORD, not of the socket a copy arrived on: wherever the library constructs a DNSAddress, a scope is passed only for
+    an AAAA record; an A record is built without one (else the same A record received over the IPv6 socket and over the
+    IPv4 socket, or built locally, are different records)."""
+    R = 'C20.SCOPE'
+    prog = ctx.prog
+    init = prog.cls('zeroconf._dns.DNSAddress').find_method('__init__')
+    ps = init.params[1:]
+    if 'scope_id' not in ps or 'type_' not in ps:
+        raise AnalysisError('anchor vanished: DNSAddress.__init__(…, type_, …, scope_id, …)')
+    obs: List[Ob] = []
+    for f in prog.functions.values():
+        for c in walk_local_ordered(f.node):
+            if not (isinstance(c, ast.Call) and call_name(c) == 'DNSAddress'):
+                continue
+            bound = {ps[i]: a for i, a in enumerate(c.args) if i < len(ps)}
+            bound.update({k.arg: k.value for k in c.keywords if k.arg})
+            sc = bound.get('scope_id')
+            if sc is None or (isinstance(sc, ast.Constant) and sc.value is None):
+                obs.append(ob(R, f, c, 'no scope is attached to the record built here', True))
+                continue
+            # a scope is passed: the record must be an AAAA record at this point
+            okt, tv = prog.try_fold(f.module, bound['type_']) if 'type_' in bound else (False, None)
+            is_aaaa = okt and tv == 28
+            if not is_aaaa:
+                cfg = cfg_of(f.node)
+                host = next((n for n in cfg.nodes if any(x is c for x in n.calls())), None)
+                tt = norm(bound['type_']) if 'type_' in bound else '?'
+                for t in cfg.nodes:
+                    if host is not None and t.kind == 'test' and isinstance(t.ast, ast.Compare) and len(t.ast.ops) == 1 and isinstance(t.ast.ops[0], ast.Eq) and cfg.dominates(t, host):
+                        sides = [t.ast.left, t.ast.comparators[0]]
+                        if any(norm(x) == tt for x in sides) and any(prog.try_fold(f.module, x) == (True, 28) for x in sides) and all(s_ is host or cfg.dominates(s_, host) for s_, lab in t.succ if lab is True):
+                            is_aaaa = True
+            obs.append(ob(R, f, c, 'a scope id is attached only to AAAA records', is_aaaa, '' if is_aaaa else f'`{norm(sc)}` is attached to a record that is not known to be AAAA here (an A record would get the scope of the receiving socket)'))
+    return obs
+
+
 @rule('C20.CASE', 'N', expect_min=1)
 def case(ctx: Any) -> List[Ob]:
     """Identity decisions never go through a name as spelled: in the classes that decide whether two records are the same
@@ -371,4 +411,4 @@ EXPLANATION = (
     'C20.ONECOPY (necessary): the cache indexes hold one object per identity (an equal key is dropped before the store). '
     'C20.CASE (necessary): the identity consumers (record classes, known-answer set, cache, question history) never compare or key on a name as spelled.'
 )
-RULES = [congruence, onecopy, case]
+RULES = [congruence, onecopy, scope, case]
